@@ -120,6 +120,7 @@ CANARIES = {
         ("lenient-base64-validation", "stix2/patterns.py", "text", ["base64.b64decode(value, validate=True)", "base64.b64decode(value)"], "C10.binary-literal-form"),
         ("path-text-cut-at-dots", "stix2/patterns.py", "text", ["        steps = [m.group(0) for m in _PATH_STEP_RE.finditer(path)]\n", "        steps = path.split(\".\")\n"], "C10.path-text"),
         ("negative-float-literal-stays-a-raw-node", "stix2/pattern_visitor.py", "text", ["node.symbol.type == self.parser_class.FloatPosLiteral or node.symbol.type == self.parser_class.FloatNegLiteral", "node.symbol.type == self.parser_class.FloatPosLiteral"], "C10.token-domain"),
+        ("string-only-operator-guesses-a-timestamp", "stix2/patterns.py", "text", ["        elif isinstance(rhs, str) and self.operator in (\n            \"LIKE\", \"MATCHES\", \"ISSUBSET\", \"ISSUPERSET\",\n        ):", "        elif isinstance(rhs, str) and self.operator in (\n            \"LIKE\", \"ISSUBSET\", \"ISSUPERSET\",\n        ):"], "C10.operand-kinds"),
     ],
     "C11": [
         ("overwrite-refusal-removed", "stix2/datastore/filesystem.py", "drop-raise-guard", ["_check_path_and_write", "os.path.isfile"], "C11.check-before-write"),
